@@ -156,9 +156,9 @@ def stepLine (_ : Unit) (toks : List String) : Unit × Option Verdict :=
     match maxB.toNat?, dropped.toNat?, evToks.mapM parseEv with
     | some maxB, some dropped, some evs =>
       let blocking := bl == "1"
-      let allEnded := evs.filterMap fun | .ended id => some id | _ => none
-      let allUns := evs.filterMap fun | .endedUnsampled id => some id | _ => none
-      let (bad, f22) := Spec.histCheck maxB blocking dropped allEnded allUns evs
+      -- `histJudge` = `histCheck` with the ended sampled / unsampled ids read off the history (Spec.lean); it is the
+      -- function of theorem `bsp_model_history_passes_driver_oracle`
+      let (bad, f22) := Spec.histJudge maxB blocking dropped evs
       let spec := if !bad.isEmpty then "FAIL" else if f22 then "KNOWN:F22" else "ok"
       let nExp := (evs.filter fun | .exportStart _ => true | _ => false).length
       let br := (if dropped > 0 then ["drop"] else []) ++ (if nExp ≥ 2 then ["multi-export"] else []) ++
